@@ -146,6 +146,13 @@ CHECKS = {
             "Trusted: TLC; the recording code of the harness. The boolean result of remove_move and widening the mask of "
             "a generation-restricted iterator are unspecified and unchecked; histories inside the two known-finding "
             "classes are not generated."),
+    "C20": ("model_checking",
+            "spec/Tracing.tla (global flag, per-thread override and saved override, nine operations per thread) is "
+            "explored completely for two threads by TLC: view invariant, non-interference action property, take/restore "
+            "round trip. Every transition of the graph (8496) is one behaviour replayed on two real OS threads stepped "
+            "through channels; both threads' is_enabled() must equal the specified views after every step.",
+            "explicit TLA+ spec + TLC model checking; one spec->impl replay per transition", "5/C20",
+            "Trusted: TLC; operations are observed after completion (each touches the shared flag at most once)."),
 }
 
 NA = {}
